@@ -32,7 +32,8 @@ ASSUME \A q \in {1, 2, 3, 34, 35, 66, 67, 98} : \A which \in 1..3 : CraftedValue
 VARIABLES pq, pdone
 Init == pq = 0 /\ pdone = FALSE
 Next == ~pdone /\ pq' = pq + 1 /\ pdone' = (pq + 1 >= Len(Values))
-Picked(q) == Stride = 1 \/ q % Stride = 1 \/ q <= 2
-Emit == (pq >= 1 /\ Picked(pq)) => \A which \in 1..3 : \A kind \in 1..2 : (kind = 1 \/ pq % 2 = 0) =>
+\* quick (Stride > 1): every special value for the first-block forms, a stride of them for the second-block forms
+Picked(q, kind) == Stride = 1 \/ kind = 1 \/ q % Stride = 1 \/ q <= 2
+Emit == pq >= 1 => \A which \in 1..3 : \A kind \in 1..2 : Picked(pq, kind) =>
             PrintT(<<"PLAN", ToJson([kind |-> kind, which |-> which, msg |-> Msg(kind, which, pq)])>>)
 =============================================================================
